@@ -1,5 +1,5 @@
 """C09 — mpmc is a bounded FIFO (structure: capacity guard, refill, FIFO ends, success only after transfer)."""
-from rl import (entry_methods, loc_endswith, path_cond, trace_summary, where, const_of, fmt_val, fmt_loc, fields_of)
+from rl import (method_role, entry_methods, loc_endswith, path_cond, trace_summary, where, const_of, fmt_val, fmt_loc, fields_of)
 from common import fifo_ends, contains, poll_variant, own_node_roots
 from lib import CheckerError
 
@@ -96,13 +96,13 @@ def run(C, R):
                                'SendComplete=%s' % (m['path'], bool(takes), pushed, sc), where(F, q),
                                {'trace': trace_summary(path)})
                 # R4 success
-                if 'send' in (m.get('name') or ''):
+                if method_role(F, m)[0] == 'send':
                     rv = path.ret
                     success = False
-                    if m['name'] == 'try_send':
-                        success = rv[0] == 'agg' and rv[2] == 'Ok'
-                    else:
-                        success = poll_variant(E, path) == 'Ready' and rv[0] == 'tuple' and rv[1][1] == ('agg', 'std::option::Option', 'None', ())
+                    if rv[0] == 'agg' and rv[1] == 'std::result::Result':
+                        success = rv[2] == 'Ok'
+                    elif rv[0] == 'tuple':
+                        success = poll_variant(E, path) == 'Ready' and rv[1][1] == ('agg', 'std::option::Option', 'None', ())
                     if success:
                         nsucc += 1
                         own_pushed = False
